@@ -574,6 +574,35 @@ func errorHandled(m *model.Model, sc *model.SC, call *ast.CallExpr, errIdx, nres
 			branch = ifs.Body
 		case be.Op == token.EQL && (mentions(be.X) && isNil(be.Y) || mentions(be.Y) && isNil(be.X)) && ifs.Else != nil:
 			branch = ifs.Else
+		case be.Op == token.EQL && (mentions(be.X) && isNil(be.Y) || mentions(be.Y) && isNil(be.X)) && ifs.Else == nil:
+			// `if err == nil { …; return }` followed by the failure handling: when the success branch cannot fall
+			// through, the statements after the if are the failure branch
+			last := len(ifs.Body.List) - 1
+			if last < 0 {
+				return true
+			}
+			if _, isRet := ifs.Body.List[last].(*ast.ReturnStmt); !isRet {
+				return true
+			}
+			if blk, ok := m.Parent(p, n).(*ast.BlockStmt); ok {
+				var rest []ast.Stmt
+				after := false
+				for _, st := range blk.List {
+					if after {
+						rest = append(rest, st)
+					}
+					if ast.Node(st) == n {
+						after = true
+					}
+				}
+				if len(rest) == 0 {
+					return true
+				}
+				branch = &ast.BlockStmt{Lbrace: rest[0].Pos(), List: rest, Rbrace: blk.Rbrace}
+				ifs.Else = ifs.Body // the failure code cannot be followed by the success code either
+			} else {
+				return true
+			}
 		default:
 			return true
 		}
